@@ -329,6 +329,11 @@ def path_statements(stmts, assume):
         if isinstance(test, ast.UnaryOp) and isinstance(test.op, ast.Not):
             d = decide(test.operand)
             return None if d is None else not d
+        if isinstance(test, ast.BoolOp):
+            ds = [decide(v) for v in test.values]
+            if isinstance(test.op, ast.And):
+                return False if False in ds else True if all(d is True for d in ds) else None
+            return True if True in ds else False if all(d is False for d in ds) else None
         if isinstance(test, ast.Compare) and len(test.ops) == 1 and isinstance(test.left, ast.Name) and test.left.id in assume \
                 and isinstance(test.comparators[0], ast.Constant) and test.comparators[0].value is None:
             if isinstance(test.ops[0], ast.Is):
